@@ -92,6 +92,43 @@ func c04GuardFollows(lay []uint16, mode int, key []byte) (string, string) {
 	if _, err := m.Write(src.Raw); err != nil {
 		return "harness", err.Error()
 	}
+	if mode == 2 {
+		// a signed message; the caller appends an attribute behind the MAC by hand (Type and Value, the way one fills a
+		// RawAttribute) and re-encodes: the MAC still verifies, on that very Message and on a decode of its bytes
+		signed := new(stun.Message)
+		signed.TransactionID = [12]byte{4, 4, 4}
+		signed.WriteHeader()
+		for i, t := range lay {
+			if t != 0x8028 {
+				signed.Add(stun.AttrType(t), c04Value(t, 4, i))
+			}
+		}
+		if err := stun.MessageIntegrity(key).AddTo(signed); err != nil {
+			return "harness", err.Error()
+		}
+		d := new(stun.Message)
+		if _, err := d.Write(signed.Raw); err != nil {
+			return "harness", err.Error()
+		}
+		var e1, e2 error
+		if p := catch(func() {
+			d.Attributes = append(d.Attributes, stun.RawAttribute{Type: stun.AttrSoftware, Value: []byte("appended behind the MAC")})
+			d.Encode()
+			e1 = stun.MessageIntegrity(key).Check(d)
+			f := new(stun.Message)
+			if _, err := f.Write(d.Raw); err != nil {
+				e2 = err
+			} else {
+				e2 = stun.MessageIntegrity(key).Check(f)
+			}
+		}); p != "" {
+			return "check-after-reencoding", p
+		}
+		if e1 != nil || e2 != nil {
+			return "check-after-reencoding", fmt.Sprintf("attributes %04x + MESSAGE-INTEGRITY decoded, SOFTWARE appended to m.Attributes by hand (Type and Value), Encode: Check on that Message = %v, on a decode of its bytes = %v", lay, e1, e2)
+		}
+		return "", ""
+	}
 	var err error
 	if p := catch(func() {
 		if mode == 0 {
@@ -197,6 +234,19 @@ func c04Verify(raw, key []byte) (outcome, vkey, detail string) {
 	var err2 error
 	if p := catch(func() { err2 = stun.MessageIntegrity(key).Check(m) }); p != "" || (err2 == nil) != (err == nil) {
 		return "", "check-not-idempotent", fmt.Sprintf("MessageIntegrity.Check = %v, the same call again on the same Message = %v %s: %x", err, err2, p, clip(raw))
+	}
+	// taking a copy of the message for the wire (MarshalBinary, GobEncode) gives the bytes it has and leaves them alone:
+	// a received message need not be in the library's canonical encoding (padding bytes, the legacy 0x8020 type), and
+	// the MAC covers the bytes as they are
+	var mb, gb []byte
+	if p := catch(func() { mb, _ = m.MarshalBinary(); gb, _ = m.GobEncode() }); p != "" {
+		return "", "check-panic", fmt.Sprintf("MarshalBinary / GobEncode %s on %x", p, clip(raw))
+	}
+	if !bytes.Equal(mb, raw) || !bytes.Equal(gb, raw) || !bytes.Equal(m.Raw, raw) {
+		return "", "marshal-changes-message", fmt.Sprintf("after decoding %x: MarshalBinary = %x, GobEncode = %x, m.Raw afterwards = %x", clip(raw), clip(mb), clip(gb), clip(m.Raw))
+	}
+	if p := catch(func() { err2 = stun.MessageIntegrity(key).Check(m) }); p != "" || (err2 == nil) != (err == nil) {
+		return "", "check-not-idempotent", fmt.Sprintf("MessageIntegrity.Check = %v, after MarshalBinary and GobEncode of the same Message = %v %s: %x", err, err2, p, clip(raw))
 	}
 	// the same check from inside a ForEach callback (ForEach hands the callback a window of the attribute list)
 	var ferr error
@@ -515,7 +565,7 @@ func init() {
 			}
 			if c.Shard == 0 {
 				for li, lay := range [][]uint16{{0x8028}, {0x0006, 0x8028}, {0x8028, 0x8022}, {0x0006, 0x8028, 0x8022, 0x0014}, {0x8028, 0x8028}, {0x0006}, {}} {
-					for mode := 0; mode < 2; mode++ {
+					for mode := 0; mode < 3; mode++ {
 						c.Eval(1)
 						if k, d := c04GuardFollows(lay, mode, c04Keys[3]); k != "" {
 							c.Violation(k, d, c04Case{Kind: "guard", Cred: []string{fmt.Sprint(li), fmt.Sprint(mode)}, Key: hex.EncodeToString(c04Keys[3])})
